@@ -141,6 +141,11 @@ func (w *c04Worker) judge(toks []model.Tok, style model.Style) (v c04Verdict, de
 	switch {
 	case gs && !accepted:
 		return c04RejectedGrammatical, fmt.Sprint(err), gs, gl
+	case !gl && !accepted && style == model.Tight:
+		// Compile rejects, as it must; the one-shot Search must not evaluate the text either
+		if _, serr, spn := impl.SearchOnce(text, map[string]interface{}{"a": 1.0}); spn == nil && serr == nil {
+			return c04AcceptedUngrammatical, "Compile rejects the text but jmespath.Search evaluates it (nil error)", gs, gl
+		}
 	case !gl && accepted:
 		// make the late failure visible in the report, if there is one
 		late := ""
